@@ -42,12 +42,21 @@ def strOfHex (h : String) : Option Str :=
 /-- what the oracle remembers about one `write` op -/
 structure W where
   id : Nat
-  json : Bool
-  payload : Str
+  kind : String     -- str jstr json slite mini bytes rkyvs rkyvi
+  direct : Bool     -- variant `d` (no resource object on the client)
+  raw : List Nat    -- the op's value payload (bytes)
+  aux : List Nat    -- the op's second payload (kinds whose encoding is not modelled)
+  enc : Str         -- the encoded string handed to `write_async`
   reg : Bool        -- `write_async` was called (the flag was on)
-  late : Bool       -- registered after the stream had ended
+  late : Bool       -- registered after the stream had ended / `consume_buffers` had started
+  consumed : Bool   -- taken by `consume_buffers`
   completed : Bool
   emitted : Nat
+
+/-- the flag-on creations the client replays: a write (index) or a bare `next_id` -/
+inductive Created where
+  | write (k : Nat) (hyd : Bool)
+  | bareId (hyd : Bool)
 
 structure E where
   b : Nat
@@ -58,7 +67,12 @@ structure E where
 
 structure St where
   srv : Srv
+  islands : Bool := false
   started : Bool
+  consumeRequested : Bool := false
+  consumeStarted : Bool := false
+  consumedPairs : Option (List (Nat × Str)) := none
+  created : List Created := []
   writes : List W
   errs : List E
   everSealed : List Nat
@@ -87,12 +101,38 @@ def showNats (ns : List Nat) : String :=
 def dataClass (payload : Str) : String :=
   if nulOct payload then "nul-octal" else if hasLt payload then "lt-rewritten" else "mismatch"
 
-def sameValue (json : Bool) (written read : Str) : Bool :=
-  if json then
-    match jsonNorm written, jsonNorm read with
-    | some a, some b => a == b
-    | _, _ => false
-  else written == read
+/-- `Ser::encode(value).into_encoded_string()` for the modelled kinds; the op's second payload
+for the others -/
+def encodeOf (kind : String) (raw aux : List Nat) : Option Str :=
+  if kind == "str" || kind == "json" then utf8Decode raw
+  else if kind == "jstr" then (utf8Decode raw).map jsonStrEncode
+  else if kind == "slite" || kind == "mini" then utf8Decode aux
+  else if kind == "bytes" then some (encBytes raw)
+  else if kind == "rkyvs" || kind == "rkyvi" then some (encBytes aux)
+  else none
+
+/-- `from_encoded_str` then `Ser::decode`, compared with the server's value: ok / wrong / none -/
+def decStatus (w : W) (read : Str) : String :=
+  if w.kind == "str" then (if some read == utf8Decode w.raw then "ok" else "wrong")
+  else if w.kind == "jstr" then
+    match jsonStrDecode read with
+    | some v => if some v == utf8Decode w.raw then "ok" else "wrong"
+    | none => "none"
+  else if w.kind == "json" then
+    match jsonNorm read, (utf8Decode w.raw).bind jsonNorm with
+    | some a, some b => if a == b then "ok" else "wrong"
+    | _, _ => "none"
+  else if w.kind == "bytes" then
+    match decBytes read with
+    | some bs => if bs == w.raw then "ok" else "wrong"
+    | none => "none"
+  else if w.kind == "rkyvs" || w.kind == "rkyvi" then
+    match decBytes read with
+    | some bs => if bs == w.aux then "ok" else "wrong"
+    | none => "none"
+  else (if read == w.enc then "ok" else "wrong")
+
+def sameValue (w : W) (read : Str) : Bool := decStatus w read == "ok"
 
 def markEmitted (id : Nat) : List W → List W
   | [] => []
@@ -109,11 +149,11 @@ def checkReads : List (Nat × Str) → List W → Option String × List W
       else if !w.completed then (some "emitted-before-complete", ws)
       else
         let ws' := markEmitted id ws
-        if sameValue w.json w.payload v then checkReads rest ws'
+        if sameValue w v then checkReads rest ws'
         else
           -- keep checking bookkeeping for the rest, report the first failure
           let (_, ws'') := checkReads rest ws'
-          (some (dataClass w.payload), ws'')
+          (some (dataClass w.enc), ws'')
 
 def markErr (b e : Nat) : List E → Option E × List E
   | [] => (none, [])
@@ -164,7 +204,7 @@ def judgeChunk (st : St) (chunk : Str) : String × St :=
 
 /-- the oracle at the end of the stream -/
 def judgeEnd (st : St) : String :=
-  if st.writes.any (fun w => w.reg && !w.late && w.emitted != 1) then "fail lost-value"
+  if st.writes.any (fun w => w.reg && !w.late && !w.consumed && w.emitted != 1) then "fail lost-value"
   else if st.errs.any (fun x => !x.late && !x.emitted && !st.everSealed.contains x.b) then "fail lost-error"
   else if st.js.incomplete != st.incs then "fail incomplete-mismatch"
   else "ok"
@@ -186,27 +226,43 @@ def step (st : St) (line : String) : St × String :=
   | ["case", n] => (St.init, s!"case {n}")
   | ["ctx", k] =>
     if k == "new" then ({ St.init with srv := Srv.new false }, "ok")
-    else if k == "islands" then ({ St.init with srv := Srv.new true }, "ok")
+    else if k == "islands" then ({ St.init with srv := Srv.new true, islands := true }, "ok")
     else (st, "bad-op")
   | ["hyd", b] =>
     if b == "0" then ({ st with srv := st.srv.setHyd false }, "ok")
     else if b == "1" then ({ st with srv := st.srv.setHyd true }, "ok")
     else (st, "bad-op")
   | ["id"] =>
+    let hyd := st.srv.ctr.hyd
     let (i, srv) := st.srv.nextId
-    ({ st with srv := srv }, s!"id {i}")
-  | ["write", enc, h] =>
-    match strOfHex h with
+    ({ st with srv := srv, created := st.created ++ [Created.bareId hyd] }, s!"id {i}")
+  | "write" :: kind :: variant :: rest =>
+    let kinds := ["str", "jstr", "json", "slite", "mini", "bytes", "rkyvs", "rkyvi"]
+    let hasAux := kind == "slite" || kind == "mini" || kind == "rkyvs" || kind == "rkyvi"
+    if !kinds.contains kind || !["d", "ar", "r", "ao", "o", "sv"].contains variant then (st, "bad-op") else
+    let payloads : Option (List Nat × List Nat) :=
+      match rest, hasAux with
+      | [h], false => (bytesOfHex h).map fun r => (r, [])
+      | [h, x], true => match bytesOfHex h, bytesOfHex x with
+        | some r, some a => some (r, a)
+        | _, _ => none
+      | _, _ => none
+    match payloads with
     | none => (st, "bad-op")
-    | some payload =>
-      if enc != "str" && enc != "json" then (st, "bad-op") else
-      let hyd := st.srv.ctr.hyd
-      let (i, srv) := st.srv.nextId
-      let key := st.writes.length
-      let srv := if hyd then srv.writeAsync key i payload else srv
-      let w : W := { id := i, json := enc == "json", payload := payload, reg := hyd,
-                     late := isDone srv, completed := false, emitted := 0 }
-      ({ st with srv := srv, writes := st.writes ++ [w] }, s!"w {key} {i} {if hyd then 1 else 0}")
+    | some (raw, aux) =>
+      match encodeOf kind raw aux with
+      | none => (st, "bad-op")
+      | some enc =>
+        let hyd := st.srv.ctr.hyd
+        let (i, srv) := st.srv.nextId
+        let key := st.writes.length
+        let shared := variant == "sv"
+        let srv := if hyd then (if shared then srv.writeReady key i enc else srv.writeAsync key i enc) else srv
+        let w : W := { id := i, kind := kind, direct := variant == "d", raw := raw, aux := aux, enc := enc,
+                       reg := hyd, late := isDone srv || st.consumeStarted, consumed := false,
+                       completed := hyd && shared, emitted := 0 }
+        ({ st with srv := srv, writes := st.writes ++ [w], created := st.created ++ [Created.write key hyd] },
+         s!"w {key} {i} {if hyd then 1 else 0} enc={hexOfStr enc}")
   | ["err", b, e, h] =>
     match b.toNat?, e.toNat?, strOfHex h with
     | some b, some e, some m =>
@@ -236,6 +292,61 @@ def step (st : St) (line : String) : St × String :=
                      writes := st.writes.set k { w with completed := true } }, "ok")
         else (st, "skip")
       | none => (st, "skip")
+  | ["consume"] =>
+    if st.consumeRequested then (st, "skip") else ({ st with consumeRequested := true }, "ok")
+  | ["cpoll"] =>
+    if !st.consumeRequested || st.consumedPairs.isSome then (st, "skip") else
+    let writes := if st.consumeStarted then st.writes else
+      st.writes.map fun w => if w.reg && !w.late && w.emitted == 0 then { w with consumed := true } else w
+    let (r, srv) := st.srv.consumePoll
+    let st := { st with srv := srv, consumeStarted := true, writes := writes }
+    match r with
+    | none => (st, "pending")
+    | some pairs =>
+      let obs := s!"done {showReads pairs}"
+      let rec judge (ps : List (Nat × Str)) (seen : List Nat) (v : Option String) : Option String × List Nat :=
+        match ps with
+        | [] => (v, seen)
+        | (id, data) :: rest =>
+          match st.writes.find? (fun w => w.consumed && w.id == id) with
+          | none => judge rest seen (v.orElse fun _ => some "consume-unknown-id")
+          | some w =>
+            let v := if seen.contains id then v.orElse fun _ => some "consume-twice" else v
+            let v := if !w.completed then v.orElse fun _ => some "consume-before-complete" else v
+            let v := if decStatus w data != "ok" then v.orElse fun _ => some "consume-mismatch" else v
+            judge rest (seen ++ [id]) v
+      let (v, seen) := judge pairs [] none
+      let v := if st.writes.any (fun w => w.consumed && !seen.contains w.id) then v.orElse fun _ => some "consume-lost" else v
+      let st := { st with consumedPairs := some pairs }
+      match v with
+      | some c => (st, s!"{obs} ## fail {c}")
+      | none => (st, s!"{obs} ## ok")
+  | ["hydrate"] =>
+    let map : List (Nat × Str) := match st.consumedPairs with
+      | some pairs => pairs
+      | none => st.js.resolved
+    let lookup (id : Nat) : Option Str := (map.reverse.find? (·.1 == id)).map (·.2)
+    let c0 := if st.islands then CliCtr.newIslands else CliCtr.new
+    let rec go (cs : List Created) (c : CliCtr) (shown : List String) (fetches : Nat) (bad : Bool) :
+        List String × Nat × Bool :=
+      match cs with
+      | [] => (shown, fetches, bad)
+      | Created.bareId true :: rest => go rest c.nextId.2 shown fetches bad
+      | Created.write k true :: rest =>
+        match st.writes[k]? with
+        | none => go rest c shown fetches bad
+        | some w =>
+          let cid := c.nextId.1
+          let stt := match lookup cid with
+            | some read => decStatus w read
+            | none => "none"
+          let fetches := if !w.direct && stt == "none" then fetches + 1 else fetches
+          let bad := bad || ((lookup w.id).isSome && stt != "ok")
+          go rest c.nextId.2 (shown ++ [s!"{k}:{stt}"]) fetches bad
+      | _ :: rest => go rest c shown fetches bad
+    let (shown, fetches, bad) := go st.created c0 [] 0 false
+    let shownS := if shown.isEmpty then "-" else ",".intercalate shown
+    (st, s!"hydrate {shownS} fetches={fetches} ## {if bad then "fail client-value" else "ok"}")
   | ["poll"] =>
     let (r, srv) := st.srv.poll P G
     let st := { st with srv := srv }
